@@ -134,11 +134,14 @@ def modelWrapperAsserts : List String := [
 ]
 
 /-- the cases of the type switch in `makeRequest`: an `rpc_error` is turned into an error (or a
-migration), a changed session configuration repeats the request, an undecodable answer is returned
-as an error; every other object is handed to the caller -/
+migration), a changed session configuration repeats the request, a `bad_msg_notification` for the
+request is returned as an error (`*BadMsgError`; produced by the dispatcher of ENCRYPTED messages only,
+never in service mode), an undecodable answer is returned as an error; every other object is handed
+to the caller -/
 def modelServiceCases : List String := [
   "case *objects.RpcError: return m.makeRequest(data, expectedTypes...)",
   "case *errorSessionConfigsChanged: return m.makeRequest(data, expectedTypes...)",
+  "case *BadMsgError: return nil, r",
   "case *errorUndecodableResponse: return nil, r"
 ]
 
